@@ -383,6 +383,45 @@ class transposition_leaves_source_unchanged:
         return kp.dumps(doc) == before
 
 
+# ================================================================================================================ C18
+@contract(None, props=['C18'], bounded='the cell corpus (every grammar alternative, free text) and each of its cells with a character outside the kern alphabet '
+                                        'inserted before, inside or after it; the seven non-kern importer classes')
+class non_kern_cells_keep_their_text:
+    """C18, against an oracle that does not go through the kern importer: whatever a non-kern spine importer makes of a cell, the token
+    carries the text of the cell -- verbatim, or (for a barline) without the measure number and the invisible mark.  A cell that is
+    shared structure plus a foreign character is not shared structure: it must not be shortened to the structure it contains."""
+    def inputs(g):
+        from contracts.spec_tokens import CELL_CORPUS
+        rng = g.seeded_rng('cell.seed')
+        cell = rng.choice([c for c in CELL_CORPUS if c])
+        how = rng.choice(['as is', 'as is', 'after', 'before', 'inside'])
+        ch = rng.choice(['ü', '€', 'ß', 'þ', '¿'])
+        if how == 'after':
+            cell = cell + ch
+        elif how == 'before':
+            cell = ch + cell
+        elif how == 'inside':
+            cell = cell[:1] + ch + cell[1:]
+        return {'cell': cell, 'importer': rng.choice(['TextSpineImporter', 'DynamSpineImporter', 'DynSpineImporter', 'HarmSpineImporter',
+                                                     'MxhmSpineImporter', 'FingSpineImporter', 'BasicSpineImporter'])}
+
+    def post_text_kept(cell, importer):
+        import re
+        cls = getattr(kp, importer, None)
+        if cls is None:
+            import importlib
+            for m in ('text_spine_importer', 'dynam_spine_importer', 'dyn_importer', 'harm_spine_importer', 'mhxm_spine_importer', 'fing_spine_importer', 'basic_spine_importer'):
+                cls = getattr(importlib.import_module('kernpy.core.' + m), importer, None)
+                if cls is not None:
+                    break
+        try:
+            tok = cls().import_token(cell)
+        except Exception:
+            return False            # import of a cell never fails
+        text = tok.export()
+        return text == cell or text == re.sub(r'^(==?)\d*[ab]*-?', r'\1', cell)
+
+
 # ================================================================================================================ C20
 @contract(None, props=['C20'], bounded=BOUND + '; LF / CRLF line ends, with / without final newline, non-ASCII lyrics; single-file and directory modes')
 class file_and_cli_paths_equal_api:
